@@ -32,6 +32,7 @@ def release(
     c0: int, c1: int, c2: int, c3: int,
     rev: bool,
     s0: int, s1: int, s2: int, s3: int, s4: int, s5: int, s6: int, s7: int, s8: int, s9: int,
+    total2: int, q0: int, q1: int, q2: int, q3: int,
 ) -> bool:
     """At quiescence the token shows its full capacity, no token file is left,
     and no job whose request fits is left waiting.
@@ -43,7 +44,7 @@ def release(
     if SHARD.get("token_kind") == "file":
         total = SHARD["total"]
         r0, r1, r2, r3 = (SHARD["reqs"] + [1, 1, 1, 1])[:4]
-    sc = schedlib.drive(SHARD, total, [r0, r1, r2, r3], [c0, c1, c2, c3], rev, [s0, s1, s2, s3, s4, s5, s6, s7, s8, s9])
+    sc = schedlib.drive(SHARD, total, [r0, r1, r2, r3], [c0, c1, c2, c3], rev, [s0, s1, s2, s3, s4, s5, s6, s7, s8, s9], total2=total2, rs2=[q0, q1, q2, q3])
     if sc is None:
         return True
     ok = True
@@ -52,6 +53,9 @@ def release(
         ok = False
     if sc.token.available != total:
         rt.note(f"FAIL: idle token shows {sc.token.available} of {total}")
+        ok = False
+    if sc.token2 is not None and sc.token2.available != total2:
+        rt.note(f"FAIL: idle second token shows {sc.token2.available} of {total2}")
         ok = False
     if SHARD.get("token_kind") == "file":
         left = [p.name for p in sc.token.path.glob("*.token")]
@@ -77,6 +81,6 @@ def conditions(tier):
     for c in c08(tier):
         c = dict(c)
         c["func"] = "release"
-        c["name"] = c["name"].replace("process/", "release-process/").replace("file/", "release-file/")
+        c["name"] = c["name"].replace("process/", "release-process/").replace("file/", "release-file/").replace("two-tokens/", "release-two-tokens/")
         conds.append(c)
     return conds
